@@ -16,18 +16,33 @@ def snapshot_module_globals(prefixes=('mesonbuild',)):
             if isinstance(v, type) and getattr(v, '__module__', None) == name:
                 # class-level containers too (a memo kept on the class is module state under another name)
                 for ck, cv in list(vars(v).items()):
+                    f = getattr(cv, '__func__', cv)
+                    if isinstance(f, _t.FunctionType): _snap_defaults(f)
                     if not ck.startswith('__') and type(cv) in (dict, list, set):
                         try:
                             _GLOBAL_SNAPSHOT.append((cv, type(cv)(cv)))
                         except Exception:
                             pass
                 continue
+            if isinstance(v, _t.FunctionType) and getattr(v, '__module__', None) == name:
+                _snap_defaults(v)
             if k.startswith('__') or isinstance(v, (_t.ModuleType, type, _t.FunctionType)): continue
             if type(v) in (dict, list, set):
                 try:
                     _GLOBAL_SNAPSHOT.append((v, type(v)(v)))
                 except Exception:
                     pass
+
+
+def _snap_defaults(fn):
+    """a mutable default argument is state that outlives the call - module state under yet another name"""
+    f = getattr(fn, '__wrapped__', fn)
+    for d in list(getattr(f, '__defaults__', None) or ()) + list((getattr(f, '__kwdefaults__', None) or {}).values()):
+        if type(d) in (dict, list, set):
+            try: _GLOBAL_SNAPSHOT.append((d, type(d)(d)))
+            except Exception: pass
+        elif type(d).__name__ == 'SymSet' and type(getattr(d, '_items', None)) is list:      # `set()` written in instrumented code
+            _GLOBAL_SNAPSHOT.append((d._items, list(d._items)))
 
 
 def restore_module_globals():
